@@ -44,6 +44,49 @@ def render_plain(block, rnd, style):
     return " ".join(toks)
 
 
+def replay_path(r, docs, base, counts):
+    jobs = []
+    for i, d in enumerate(docs):
+        for extra in ([], ["-push0"]):
+            jobs.append((d, base[i % len(base)] + extra))
+    first = cli_props.parallel([(d, o + ["-log"]) for d, o in jobs], lambda d, o: clirun.run_cli(d, o, timeout=900))
+    rep_jobs, meta = [], []
+    for (d, o), res in zip(jobs, first):
+        if clirun.watchdog(res, r, "run with -log") or res.rc != 0:
+            continue
+        log_text, direct = res.text_file("input.log"), res.text_file("_optimized.json_solc")
+        if log_text is None or direct is None:
+            continue
+        rep_jobs.append((d, o + ["-optimize-from-log", "the.log"], {"the.log": log_text}))
+        meta.append((o, direct))
+    reps = cli_props.parallel(rep_jobs, lambda d, o, extra: clirun.run_cli(d, o, timeout=900, extra_files=extra))
+    counts["replays_under_both_settings"] = 0
+    counts["replays_with_push0_disabled"] = 0
+    for (o, direct), res in zip(meta, reps):
+        label = "replay with %s" % " ".join(o)
+        if clirun.watchdog(res, r, label):
+            continue
+        counts["replays_under_both_settings"] += 1
+        out_text = res.text_file("_optimized_from_log.json_solc")
+        if res.rc != 0 or out_text is None:
+            r.witness("replay of an untouched log fails under the PUSH0 setting of the first run",
+                      {"opts": o, "stderr": res.stderr_tail[-400:]})
+            continue
+        if "-push0" in o:
+            counts["replays_with_push0_disabled"] += 1
+            try:
+                out = json.loads(out_text)
+            except Exception:
+                out = None
+            n0 = sum(1 for _, _, _, items in clirun.code_streams(out or {}) for it in items if it.get("name") == "PUSH0")
+            if n0:
+                r.witness("PUSH0 emitted although PUSH0 is disabled (log replay path)", {"opts": o, "push0_items": n0})
+                continue
+        if out_text != direct:
+            r.witness("the document rebuilt from the log differs from the directly optimized one under the same PUSH0 setting",
+                      {"opts": o})
+
+
 def spelling_invariance(r, rnd, counts, n_files):
     files = []
     for _ in range(n_files):
@@ -204,11 +247,15 @@ def run():
             r.witness("printed totals with -c do not cover exactly the selected contract",
                       {"doc": label, "printed": tot, "recomputed": mine})
     counts["selection_streams_checked"] = c9.get("streams", 0)
+    # (e) the log replay path under both settings: the document rebuilt from an untouched log has no PUSH0 item when PUSH0
+    #     is disabled and equals the directly optimized one (the flag has to be applied on every entry path)
+    replay_path(r, docs[:(3 if quick else 12)], base, counts)
     # (d) plain-text input: the way a constant is written (PUSH0 / PUSH1 0x00 / PUSH1 0 / PUSH2 0x0000, padded or
     #     minimal hex, decimal) must not change any figure of the run, under either setting
     spelling_invariance(r, rnd, counts, 6 if quick else 40)
     for need in ("zero_push_rows", "emitted_zero_pushes_enabled", "emitted_zero_pushes_disabled", "selection_runs",
-                 "totals_reconciled", "spelling_groups_compared", "spelling_groups_with_zero_push_variants"):
+                 "totals_reconciled", "spelling_groups_compared", "spelling_groups_with_zero_push_variants",
+                 "replays_with_push0_disabled"):
         if counts.get(need, 0) == 0:
             r.inconclusive.append("!never reached: " + need)
     r.coverage.update(counts)
